@@ -62,6 +62,13 @@ const (
 	c36FViewCmt   = "C36-view-trailing-comment"
 	c36FEarlyYear = "C36-date-year-below-1000"
 	c36FFloatMax  = "C36-float-max"
+
+	c36FJSONExp       = "C36-json-import-exponent"
+	c36FJSONLongText  = "C36-json-export-long-text"
+	c36FJSONBlob      = "C36-json-blob-base64" // pinned only: JSON cases never hold binary columns
+	c36FParquetNull   = "C36-parquet-null-decimal"
+	c36FFileGenerated = "C36-file-generated-column"
+	c36FParquetDotted = "C36-parquet-dotted-column"
 )
 
 func c36IsOpen(id string) bool {
@@ -99,6 +106,12 @@ func c36NewGate() *c36Gate {
 		noViewComment:  c36IsOpen(c36FViewCmt),
 		noEarlyYear:    c36IsOpen(c36FEarlyYear),
 		noFloatMax:     c36IsOpen(c36FFloatMax),
+
+		noJSONExponent:   c36IsOpen(c36FJSONExp),
+		noJSONLongText:   c36IsOpen(c36FJSONLongText),
+		noParquetNullDec: c36IsOpen(c36FParquetNull),
+		noFileGenerated:  c36IsOpen(c36FFileGenerated),
+		noParquetDotted:  c36IsOpen(c36FParquetDotted),
 	}
 }
 
@@ -495,6 +508,15 @@ var c36FormatsRule = "per case one of csv / json / parquet: a database of 1-2 ta
 	"Non-trivial: at least one string with a quote and a backslash and one NULL (parquet: also a binary value containing NUL); distinct by the hash of the build script and the format."
 
 func (e *c36Env) formatRoundTrip(db *c36DB, format string, keep bool) (violation string, skipped string, err error) {
+	fp, names := db.rowsFingerprintScript()
+	var tables []string
+	for i := range db.tables {
+		tables = append(tables, db.tables[i].name)
+	}
+	return e.rawFormatRoundTrip(db.buildScript(), db.schemaScript(), tables, fp, names, format, keep)
+}
+
+func (e *c36Env) rawFormatRoundTrip(build, schema string, tables []string, fp string, names []string, format string, keep bool) (violation string, skipped string, err error) {
 	caseDir, err := os.MkdirTemp(e.root, "fcase")
 	if err != nil {
 		return "", "", err
@@ -510,13 +532,12 @@ func (e *c36Env) formatRoundTrip(db *c36DB, format string, keep bool) (violation
 	if err != nil {
 		return "", "", err
 	}
-	if _, se, err := e.run(src, []byte(db.buildScript()), "sql"); err != nil {
+	if _, se, err := e.run(src, []byte(build), "sql"); err != nil {
 		if err == errC36Timeout {
 			return "", "", err
 		}
 		return "", "build rejected: " + se, nil
 	}
-	fp, names := db.rowsFingerprintScript()
 	srcOut, se, err := e.run(src, []byte(fp), "sql", "-r", "csv")
 	if err != nil {
 		if err == errC36Timeout {
@@ -534,14 +555,13 @@ func (e *c36Env) formatRoundTrip(db *c36DB, format string, keep bool) (violation
 		}
 		return fmt.Sprintf("`dolt dump -r %s` failed: %v\nstdout: %s\nstderr: %s", format, err, c36Clip(so), c36Clip(se)), "", nil
 	}
-	if _, se, err := e.run(dst, []byte(db.schemaScript()), "sql"); err != nil {
+	if _, se, err := e.run(dst, []byte(schema), "sql"); err != nil {
 		if err == errC36Timeout {
 			return "", "", err
 		}
 		return "", "schema rejected in the destination: " + se, nil
 	}
-	for i := range db.tables {
-		name := db.tables[i].name
+	for _, name := range tables {
 		file := filepath.Join(src, "out", name+"."+format)
 		if _, err := os.Stat(file); err != nil {
 			return fmt.Sprintf("`dolt dump -r %s` wrote no file for table %q: %v", format, name, err), "", nil
